@@ -6,17 +6,17 @@ open BV.Hasher BV.MatchFinder BV.Recoder BV.PrefixArith BV.MetaBlock
 
 /-- what `FindLongestMatch` may return at `pos` (window `mbk`, length limit `ml`): the conclusion
 of `match_sound_*` with the mask `2^k - 1` applied to both positions -/
-def SoundAt (data : ByteArray) (k md pos ml mbk : Nat) (o : SR) : Prop :=
+def SoundAt (slotOK : DictItem → Prop) (data : ByteArray) (k md pos ml mbk : Nat) (o : SR) : Prop :=
   (0 < o.distance ∧ o.distance ≤ mbk ∧ o.len ≤ ml ∧ o.lenXCode = 0 ∧ (4 ≤ ml → 2 ≤ o.len) ∧
     Agree data ((pos - o.distance) % 2 ^ k) (pos % 2 ^ k) o.len) ∨
-  (∃ items, DictOK items data (pos % 2 ^ k) ml mbk md o)
+  (∃ items, (∀ d ∈ items, d.item ≠ 0 → slotOK d) ∧ DictOK items data (pos % 2 ^ k) ml mbk md o)
 
 /-- the hypotheses on the abstract hasher: `MatchSound` (every `true` result is sound) and
 `PrepareDistanceCache` leaves the four real cache entries alone -/
-structure OpsOK {H : Type} (ops : HasherOps H) (p : Params) (data : ByteArray) (k : Nat) : Prop where
+structure OpsOK {H : Type} (slotOK : DictItem → Prop) (ops : HasherOps H) (p : Params) (data : ByteArray) (k : Nat) : Prop where
   sound : ∀ h cache pos ml mbk sr0 o h',
     ops.find h cache pos ml mbk p.maxDistance sr0 = some (true, o, h') → pos < 2 ^ 64 → mbk ≤ pos →
-      SoundAt data k p.maxDistance pos ml mbk o
+      SoundAt slotOK data k p.maxDistance pos ml mbk o
   prepare : ∀ c c', ops.prepareCache c = some c' → c'.take 4 = c.take 4 ∧ c'.length = c.length
   htl : 4 ≤ ops.hashTypeLength
 
@@ -48,8 +48,8 @@ def EmitGood (C : Ctx) (p : Params) (d : DecSt) (pos ins : Nat) (sr : SR) (cache
     d'.ring = cache'.take 4 ∧ CacheI32 cache' ∧ 4 ≤ cache'.length ∧
     cmd.insertLen = ins ∧ copyLen cmd = sr.len ∧ sr.len ≠ 0 ∧ Good cmd
 
-theorem emit_inv {H : Type} {ops : HasherOps H} {p : Params} {data : ByteArray} {k : Nat}
-    (hops : OpsOK ops p data k) {position ins : Nat} {sr : SR} {cache cache2 : List Int} {cmd : Cmd}
+theorem emit_inv {H : Type} {slotOK : DictItem → Prop} {ops : HasherOps H} {p : Params} {data : ByteArray} {k : Nat}
+    (hops : OpsOK slotOK ops p data k) {position ins : Nat} {sr : SR} {cache cache2 : List Int} {cmd : Cmd}
     (h : emit ops p position ins sr cache = some (cmd, cache2)) :
     ∃ cache', emitCommand p.npostfix p.ndirect position (maxBackwardLimit p) ins sr cache = some (cmd, cache') ∧
       cache2.take 4 = cache'.take 4 ∧ cache2.length = cache'.length := by
@@ -113,13 +113,13 @@ theorem skipAhead_inv {H : Type} {ops : HasherOps H} {p : Params} {posEnd : Nat}
     exact ⟨hle, Nat.le_refl _, by omega, Nat.le_refl _, rfl⟩
 
 /-- the lazy-matching loop returns a result that was found (soundly) at the returned position -/
-theorem lazyLoop_inv {H : Type} {ops : HasherOps H} {p : Params} {data : ByteArray} {k : Nat}
-    (hops : OpsOK ops p data k) (posEnd : Nat) (cache : List Int) (h64 : posEnd < 2 ^ 64) :
+theorem lazyLoop_inv {H : Type} {slotOK : DictItem → Prop} {ops : HasherOps H} {p : Params} {data : ByteArray} {k : Nat}
+    (hops : OpsOK slotOK ops p data k) (posEnd : Nat) (cache : List Int) (h64 : posEnd < 2 ^ 64) :
     ∀ (fuel delayed : Nat) (h : H) (position ins : Nat) (sr : SR) (h' : H) (pos' ins' : Nat) (sr' : SR),
       lazyLoop ops p posEnd cache fuel delayed h position ins (posEnd - position - 1) sr = some (h', pos', ins', sr') →
       position + ops.hashTypeLength < posEnd →
-      SoundAt data k p.maxDistance position (posEnd - position) (min position (maxBackwardLimit p)) sr →
-      SoundAt data k p.maxDistance pos' (posEnd - pos') (min pos' (maxBackwardLimit p)) sr' ∧
+      SoundAt slotOK data k p.maxDistance position (posEnd - position) (min position (maxBackwardLimit p)) sr →
+      SoundAt slotOK data k p.maxDistance pos' (posEnd - pos') (min pos' (maxBackwardLimit p)) sr' ∧
         pos' + 4 ≤ posEnd ∧ position ≤ pos' ∧ pos' - position = ins' - ins ∧ ins ≤ ins' := by
   intro fuel
   induction fuel with
@@ -146,7 +146,7 @@ theorem lazyLoop_inv {H : Type} {ops : HasherOps H} {p : Params} {data : ByteArr
       · rw [if_pos hacc] at hl
         have hfound : found = true := hacc.1
         subst hfound
-        have hs2 : SoundAt data k p.maxDistance (position + 1) (posEnd - (position + 1))
+        have hs2 : SoundAt slotOK data k p.maxDistance (position + 1) (posEnd - (position + 1))
             (min (position + 1) (maxBackwardLimit p)) sr2 := by
           have := hops.sound _ _ _ _ _ _ _ _ hf (by omega) (Nat.min_le_left _ _)
           rwa [show posEnd - position - 1 = posEnd - (position + 1) by omega] at this
@@ -167,18 +167,18 @@ theorem lazyLoop_inv {H : Type} {ops : HasherOps H} {p : Params} {data : ByteArr
         obtain ⟨_, rfl, rfl, rfl⟩ := hl
         exact ⟨hs, by omega, Nat.le_refl _, by omega, Nat.le_refl _⟩
 
-theorem soundAt_len {data : ByteArray} {k md pos ml mbk : Nat} {o : SR}
-    (h : SoundAt data k md pos ml mbk o) : o.len ≤ ml := by
-  rcases h with ⟨_, _, h3, _, _, _⟩ | ⟨items, d, _, _, h2, h3, _⟩
+theorem soundAt_len {slotOK : DictItem → Prop} {data : ByteArray} {k md pos ml mbk : Nat} {o : SR}
+    (h : SoundAt slotOK data k md pos ml mbk o) : o.len ≤ ml := by
+  rcases h with ⟨_, _, h3, _, _, _⟩ | ⟨items, _, d, _, _, h2, h3, _⟩
   · exact h3
   · exact Nat.le_trans h2 h3
 
 /-- the per-command obligation (discharged in BV/Lemmas/CbrEmit.lean / CbrDict.lean) -/
-def EmitHyp (C : Ctx) (p : Params) (Good : Cmd → Prop) : Prop :=
+def EmitHyp (slotOK : DictItem → Prop) (C : Ctx) (p : Params) (Good : Cmd → Prop) : Prop :=
   ∀ (d : DecSt) (pos ins : Nat) (sr : SR) (cache : List Int),
     d.out = C.hist ++ C.mb.take d.cursor → pos = C.hist.length + d.cursor + ins →
-    pos < C.hist.length + C.mb.length → d.ring = cache.take 4 → CacheI32 cache → 4 ≤ cache.length →
-    SoundAt C.data C.k p.maxDistance pos (C.hist.length + C.mb.length - pos) (min pos (maxBackwardLimit p)) sr →
+    pos + 4 ≤ C.hist.length + C.mb.length → d.ring = cache.take 4 → CacheI32 cache → 4 ≤ cache.length →
+    SoundAt slotOK C.data C.k p.maxDistance pos (C.hist.length + C.mb.length - pos) (min pos (maxBackwardLimit p)) sr →
     EmitGood C p d pos ins sr cache Good
 
 /-- what one iteration does to the pair (encoder state, decoder state) -/
@@ -189,11 +189,11 @@ def StepGood {H : Type} (C : Ctx) (p : Params) (Good : Cmd → Prop) (d : DecSt)
       d.cursor + cmd.insertLen ≠ C.mb.length ∧ copyLen cmd ≠ 0 ∧
       d'.cursor = d.cursor + cmd.insertLen + copyLen cmd ∧ Good cmd
 
-theorem stepEmit_inv {H : Type} {ops : HasherOps H} {p : Params} {C : Ctx} {Good : Cmd → Prop}
-    (hops : OpsOK ops p C.data C.k) (hemit : EmitHyp C p Good) {storeEnd : Nat} {s s' : St H} {h : H}
+theorem stepEmit_inv {H : Type} {slotOK : DictItem → Prop} {ops : HasherOps H} {p : Params} {C : Ctx} {Good : Cmd → Prop}
+    (hops : OpsOK slotOK ops p C.data C.k) (hemit : EmitHyp slotOK C p Good) {storeEnd : Nat} {s s' : St H} {h : H}
     {d : DecSt} {oc : Option Cmd} {pos ins : Nat} {sr : SR}
-    (hsync : Sync C s d) (hpos : pos = C.hist.length + d.cursor + ins) (hlt : pos < C.hist.length + C.mb.length)
-    (hs : SoundAt C.data C.k p.maxDistance pos (C.hist.length + C.mb.length - pos) (min pos (maxBackwardLimit p)) sr)
+    (hsync : Sync C s d) (hpos : pos = C.hist.length + d.cursor + ins) (hlt : pos + 4 ≤ C.hist.length + C.mb.length)
+    (hs : SoundAt slotOK C.data C.k p.maxDistance pos (C.hist.length + C.mb.length - pos) (min pos (maxBackwardLimit p)) sr)
     (hst : stepEmit ops p storeEnd s h pos ins sr = some (oc, s')) : StepGood C p Good d oc s' := by
   unfold stepEmit at hst
   cases he : emit ops p pos ins sr s.cache with
@@ -223,8 +223,8 @@ theorem stepEmit_inv {H : Type} {ops : HasherOps H} {p : Params} {C : Ctx} {Good
       · rw [e9]; exact e10
       · rw [e8, e9]; exact e4
 
-theorem step_inv {H : Type} {ops : HasherOps H} {p : Params} {C : Ctx} {Good : Cmd → Prop}
-    (hops : OpsOK ops p C.data C.k) (hemit : EmitHyp C p Good) {storeEnd : Nat} {s s' : St H}
+theorem step_inv {H : Type} {slotOK : DictItem → Prop} {ops : HasherOps H} {p : Params} {C : Ctx} {Good : Cmd → Prop}
+    (hops : OpsOK slotOK ops p C.data C.k) (hemit : EmitHyp slotOK C p Good) {storeEnd : Nat} {s s' : St H}
     {d : DecSt} {oc : Option Cmd} (h64 : C.hist.length + C.mb.length < 2 ^ 64)
     (hsync : Sync C s d) (hlt : s.position + ops.hashTypeLength < C.hist.length + C.mb.length)
     (hst : step ops p (C.hist.length + C.mb.length) storeEnd s = some (oc, s')) : StepGood C p Good d oc s' := by
@@ -263,7 +263,7 @@ theorem step_inv {H : Type} {ops : HasherOps H} {p : Params} {C : Ctx} {Good : C
           hl hlt hs0
         have hp := hsync.pos
         have hl2 := soundAt_len a
-        exact stepEmit_inv hops hemit hsync (by omega) (by omega) a hst
+        exact stepEmit_inv hops hemit hsync (by omega) b a hst
 
 /-- `lockstep` across one executed copy command -/
 theorem lockstep_cons (w : WordOracle) (np nd window : Nat) (mb : Bytes) (d d' : DecSt) (c : Cmd) (cs : List Cmd)
@@ -275,12 +275,13 @@ theorem lockstep_cons (w : WordOracle) (np nd window : Nat) (mb : Bytes) (d d' :
 
 /-- the whole loop: the decoder follows, every emitted command is good, and `lockstep` of the
 emitted commands followed by any tail reduces to `lockstep` of the tail from the reached state -/
-theorem loop_lockstep {H : Type} {ops : HasherOps H} {p : Params} {C : Ctx} {Good : Cmd → Prop}
-    (hops : OpsOK ops p C.data C.k) (hemit : EmitHyp C p Good) (storeEnd : Nat)
+theorem loop_lockstep {H : Type} {slotOK : DictItem → Prop} {ops : HasherOps H} {p : Params} {C : Ctx} {Good : Cmd → Prop}
+    (hops : OpsOK slotOK ops p C.data C.k) (hemit : EmitHyp slotOK C p Good) (storeEnd : Nat)
     (h64 : C.hist.length + C.mb.length < 2 ^ 64) :
     ∀ (fuel : Nat) (s s' : St H) (d : DecSt) (cmds : List Cmd),
       loop ops p (C.hist.length + C.mb.length) storeEnd fuel s = some (cmds, s') → Sync C s d →
       ∃ d', Sync C s' d' ∧ (∀ c ∈ cmds, Good c) ∧
+        decSteps C.w p.npostfix p.ndirect (maxBackwardLimit p) C.mb d cmds = some d' ∧
         ∀ tail, lockstep C.w p.npostfix p.ndirect (maxBackwardLimit p) C.mb d d.cursor (cmds ++ tail)
           = lockstep C.w p.npostfix p.ndirect (maxBackwardLimit p) C.mb d' d'.cursor tail := by
   intro fuel
@@ -290,7 +291,7 @@ theorem loop_lockstep {H : Type} {ops : HasherOps H} {p : Params} {C : Ctx} {Goo
     rw [loop] at h
     simp only [Option.some.injEq, Prod.mk.injEq] at h
     obtain ⟨rfl, rfl⟩ := h
-    exact ⟨d, hs, fun c hc => (by cases hc), fun tail => rfl⟩
+    exact ⟨d, hs, fun c hc => (by cases hc), rfl, fun tail => rfl⟩
   | succ fuel ih =>
     intro s s' d cmds h hs
     rw [loop] at h
@@ -310,24 +311,39 @@ theorem loop_lockstep {H : Type} {ops : HasherOps H} {p : Params} {C : Ctx} {Goo
           have hg := step_inv hops hemit h64 hs hcond hst
           cases oc with
           | none =>
-            obtain ⟨d', a, b, c⟩ := ih s1 s2 d cs hl hg
-            exact ⟨d', a, by simpa using b, fun tail => by simpa using c tail⟩
+            obtain ⟨d', a, b, ds, c⟩ := ih s1 s2 d cs hl hg
+            exact ⟨d', a, by simpa using b, by simpa using ds, fun tail => by simpa using c tail⟩
           | some cmd =>
             obtain ⟨d1, e1, e2, e3, e4, e5, e6⟩ := hg
-            obtain ⟨d', a, b, c⟩ := ih s1 s2 d1 cs hl e2
-            refine ⟨d', a, ?_, fun tail => ?_⟩
+            obtain ⟨d', a, b, ds, c⟩ := ih s1 s2 d1 cs hl e2
+            refine ⟨d', a, ?_, ?_, fun tail => ?_⟩
             · intro x hx
               simp only [Option.toList, List.singleton_append, List.mem_cons] at hx
               rcases hx with rfl | hx
               · exact e6
               · exact b x hx
+            · simp only [Option.toList, List.singleton_append, decSteps, e1]
+              exact ds
             · simp only [Option.toList, List.singleton_append, List.cons_append]
               rw [lockstep_cons _ _ _ _ _ d d1 cmd _ e1 e3 e4 e5]
               exact c tail
     · rw [if_neg hcond] at h
       simp only [Option.some.injEq, Prod.mk.injEq] at h
       obtain ⟨rfl, rfl⟩ := h
-      exact ⟨d, hs, fun c hc => (by cases hc), fun tail => rfl⟩
+      exact ⟨d, hs, fun c hc => (by cases hc), rfl, fun tail => rfl⟩
+
+theorem decSteps_append (w : WordOracle) (np nd window : Nat) (mb : Bytes) :
+    ∀ (xs ys : List Cmd) (d d' : DecSt), decSteps w np nd window mb d xs = some d' →
+      decSteps w np nd window mb d (xs ++ ys) = decSteps w np nd window mb d' ys := by
+  intro xs
+  induction xs with
+  | nil => intro ys d d' h; simp only [decSteps, Option.some.injEq] at h; subst h; rfl
+  | cons x xs ih =>
+    intro ys d d' h
+    simp only [decSteps, List.cons_append] at h ⊢
+    cases hx : decStep w np nd window mb d x with
+    | none => simp only [hx] at h; cases h
+    | some d1 => simp only [hx] at h ⊢; exact ih ys d1 d' h
 
 theorem copyLen_initInsert (l : Nat) : copyLen (initInsert l) = 0 := by
   simp only [copyLen, initInsert]; decide
@@ -335,7 +351,8 @@ theorem copyLen_initInsert (l : Nat) : copyLen (initInsert l) = 0 := by
 /-- the closing insert-only command: the decoder takes the remaining bytes as literals -/
 theorem lockstep_close (w : WordOracle) (np nd window : Nat) (hist mb : Bytes) (d : DecSt)
     (hout : d.out = hist ++ mb.take d.cursor) (hle : d.cursor ≤ mb.length) (h24 : mb.length < 2 ^ 32) :
-    lockstep w np nd window mb d d.cursor (closeMetaBlock [] (mb.length - d.cursor)) = true := by
+    lockstep w np nd window mb d d.cursor (closeMetaBlock [] (mb.length - d.cursor)) = true ∧
+    (decSteps w np nd window mb d (closeMetaBlock [] (mb.length - d.cursor))).map (·.out) = some (hist ++ mb) := by
   unfold closeMetaBlock
   by_cases hl : mb.length - d.cursor > 0
   · rw [if_pos hl]
@@ -351,20 +368,26 @@ theorem lockstep_close (w : WordOracle) (np nd window : Nat) (hist mb : Bytes) (
       rw [if_neg (by omega), if_neg (by omega), if_pos (by omega)]
       congr 2
       omega
-    simp only [hdec, decide_true, Bool.true_and, hins]
-    rw [if_pos (by omega)]
-    simp [copyLen_initInsert]
+    refine ⟨?_, ?_⟩
+    · simp only [hdec, decide_true, Bool.true_and, hins]
+      rw [if_pos (by omega)]
+      simp [copyLen_initInsert]
+    · simp only [decSteps, hdec, Option.map_some, Option.some.injEq]
+      rw [hout, out_extend, show d.cursor + (mb.length - d.cursor) = mb.length by omega, List.take_length]
   · rw [if_neg hl]
-    rw [lockstep]
-    simp only [decide_true, Bool.true_and, decide_eq_true_eq]
-    omega
+    refine ⟨?_, ?_⟩
+    · rw [lockstep]
+      simp only [decide_true, Bool.true_and, decide_eq_true_eq]
+      omega
+    · simp only [decSteps, Option.map_some, Option.some.injEq]
+      rw [hout, show d.cursor = mb.length by omega, List.take_length]
 
 /-- **CreateBackwardReferences keeps encoder and decoder in lock step** (abstract hasher):
 the commands of one call over a whole meta-block (`mb` = the `last_insert_len` pending literals
 followed by the `num_bytes` of the block, text before it = `hist`), closed with the insert-only
 command for the trailing literals, satisfy `lockstep`, and every one of them is `Good`. -/
-theorem cbr_lockstep {H : Type} {ops : HasherOps H} {p : Params} {C : Ctx} {Good : Cmd → Prop}
-    (hops : OpsOK ops p C.data C.k) (hemit : EmitHyp C p Good)
+theorem cbr_lockstep {H : Type} {slotOK : DictItem → Prop} {ops : HasherOps H} {p : Params} {C : Ctx} {Good : Cmd → Prop}
+    (hops : OpsOK slotOK ops p C.data C.k) (hemit : EmitHyp slotOK C p Good)
     (hgi : ∀ l, 0 < l → l ≤ C.mb.length → Good (initInsert l))
     (numBytes position : Nat) (h0 : H) (cache : List Int) (lastInsertLen numLiterals : Nat)
     (res : Result H)
@@ -374,7 +397,9 @@ theorem cbr_lockstep {H : Type} {ops : HasherOps H} {p : Params} {C : Ctx} {Good
     (h : createBackwardReferences ops p numBytes position h0 cache lastInsertLen numLiterals = some res) :
     lockstep C.w p.npostfix p.ndirect (maxBackwardLimit p) C.mb ⟨C.hist, cache.take 4, 0⟩ 0
         (closeMetaBlock res.cmds res.lastInsertLen) = true ∧
-      (∀ c ∈ closeMetaBlock res.cmds res.lastInsertLen, Good c) := by
+      (∀ c ∈ closeMetaBlock res.cmds res.lastInsertLen, Good c) ∧
+      replayCommands C.w p.npostfix p.ndirect (maxBackwardLimit p) C.mb (cache.take 4) C.hist
+        (closeMetaBlock res.cmds res.lastInsertLen) = some (C.hist ++ C.mb) := by
   unfold createBackwardReferences at h
   simp only [] at h
   cases hp : ops.prepareCache cache with
@@ -396,20 +421,24 @@ theorem cbr_lockstep {H : Type} {ops : HasherOps H} {p : Params} {C : Ctx} {Good
           ⟨C.hist, cache.take 4, 0⟩ :=
         ⟨by simp, by simp only []; omega, by simp only []; omega, by simp only []; exact pt.symm,
           cacheI32_of_take pt hc, by simp only []; omega⟩
-      obtain ⟨d', hs', hgood, hls⟩ := loop_lockstep hops hemit _ h64 _ _ _ _ _ hl hs0
+      obtain ⟨d', hs', hgood, hds, hls⟩ := loop_lockstep hops hemit _ h64 _ _ _ _ _ hl hs0
       have hlast : s'.insertLength + (C.hist.length + C.mb.length - s'.position) = C.mb.length - d'.cursor := by
         have := hs'.pos; have := hs'.le; omega
       have hdle : d'.cursor ≤ C.mb.length := by have := hs'.pos; have := hs'.le; omega
       simp only [hlast]
-      have hclose := lockstep_close C.w p.npostfix p.ndirect (maxBackwardLimit p) C.hist C.mb d' hs'.out hdle h32
+      obtain ⟨hclose, hcdec⟩ := lockstep_close C.w p.npostfix p.ndirect (maxBackwardLimit p) C.hist C.mb d' hs'.out hdle h32
       have hsplit : closeMetaBlock cmds (C.mb.length - d'.cursor)
           = cmds ++ closeMetaBlock [] (C.mb.length - d'.cursor) := by
         unfold closeMetaBlock; split <;> simp
-      refine ⟨?_, ?_⟩
+      refine ⟨?_, ?_, ?_⟩
       · rw [hsplit]
         have := hls (closeMetaBlock [] (C.mb.length - d'.cursor))
         simp only [] at this
         rw [this]; exact hclose
+      rotate_left
+      · unfold replayCommands
+        rw [hsplit, decSteps_append _ _ _ _ _ _ _ _ _ hds]
+        exact hcdec
       · intro c hcm
         rw [hsplit] at hcm
         rcases List.mem_append.mp hcm with h1 | h2
